@@ -127,6 +127,15 @@ mut('eos-before-loop', 'File.cpp', [["void File::uncompressedFileWriteThread(Fil
 mut('null-check-dropped', 'File.cpp', [["    if (obj == nullptr) {\n        /* in case of unknown objectType */\n        m_uncompressedFile.seekg(ohb.objectSize, std::ios_base::cur);\n        return;\n    }\n", ""]],
     ['C10', 'C09'], ['DN|createObject|null-check', 'S2|unknown-skip'], 'unknown object types are dereferenced')
 
+mut('copy-without-min', 'UncompressedFile.cpp', [["        std::streamsize gcount = std::min(n, static_cast<std::streamsize>(logContainer->uncompressedFileSize - offset));", "        std::streamsize gcount = n;"]],
+    ['C10'], ['B7|UncompressedFile::read'], 'a read spanning two containers copies past the first container buffer')
+mut('finder-off-by-one', 'UncompressedFile.cpp', [["            (pos < logContainer->uncompressedFileSize + logContainer->filePosition);", "            (pos <= logContainer->uncompressedFileSize + logContainer->filePosition);"]],
+    ['C10'], ['B7|logContainerContaining|postcondition'], 'a position exactly at the end of a container selects that container: offset == size')
+mut('drop-unread-container', 'UncompressedFile.cpp', [["        if ((position > m_tellg) || (position > m_tellp) || (position > m_fileSize)) {", "        if ((position > m_tellp) || (position > m_fileSize)) {"]],
+    ['C12', 'C01'], ['P4|dropOldData'], 'the front container is released although the reader has not passed it')
+mut('nextcontainer-size-mismatch', 'UncompressedFile.cpp', [["            logContainer->uncompressedFile.resize(offset);\n            logContainer->uncompressedFileSize = offset;", "            logContainer->uncompressedFile.resize(offset);"]],
+    ['C10'], ['B3|UncompressedFile::nextLogContainer'], 'buffer shrunk, size field not: later reads index past the buffer')
+
 # ------------------------------------------------------------------ benign refactorings (must stay silent)
 ALL_LAYOUT = ['C01', 'C02', 'C03', 'C10', 'C14']
 ben('reorder-size-terms', 'AppText.cpp', [["        sizeof(source) +\n        sizeof(reservedAppText1) +", "        sizeof(reservedAppText1) +\n        sizeof(source) +"]], ALL_LAYOUT)
